@@ -18,6 +18,11 @@ UNITS = [
          unwind_reason="both loops of bidib_receive_packet carry loop contracts (the polling loop's invariant: a byte was delivered)",
          timeout=300, covers=3, min_obligations=15,
          note="every byte of the stream nondeterministic; arbitrary stop point"),
+    Unit(name="C02.receive_packet_gaps", src="units/C02/receive_packet.c", functions=["bidib_receive_packet"], props=["C02", "C12"], defines=["VP_GAPS", "VP_MAX_READS=8"],
+         replace=["bidib_split_packet"], remove_bodies=[f for f in RX_OTHERS], kind="bounded",
+         bound="at most 8 polls of the read callback, each of which may deliver a byte or nothing (poll gap); both loops unwound completely for that budget",
+         unwindset={"bidib_receive_packet.0": 9, "bidib_receive_packet.1": 9}, timeout=300, covers=3, min_obligations=15,
+         note="complements C02.receive_packet, whose read stub always delivers: here a poll may find nothing at any point, also right after the escape byte"),
     Unit(name="C02.extract", src="units/C02/extract.c", functions=["bidib_extract_msg_type", "bidib_extract_address", "bidib_extract_seq_num", "bidib_first_data_byte_index"],
          props=["C02", "C12"], no_dfcc=True, remove_bodies=["bidib_communication_works", "bidib_build_message_hex_string"],
          extra_flags=["--unwind", "8", "--unwinding-assertions"], unwind_reason="terminator scans are bounded by the 4-byte address stack under the well-formedness precondition (unwinding assertions prove it)",
